@@ -27,10 +27,9 @@ def check(ctx):
         f = ctx.cls(modn, cn).own_method(meth)
         V = FuncView(ctx, f)
         ro = V.need(V.call_nodes(reopen), "%s() in %s.%s" % (reopen, cn, meth))
-        rt = V.tests(lambda t: dotted(t) == recv + ".reconnectable" or (isinstance(t, ast.BoolOp) and isinstance(t.op, ast.And) and any(dotted(v) == recv + ".reconnectable" for v in t.values)))
-        tt = V.tests(lambda t: src(t).replace("(", "").replace(")", "") == "%s.timeout > 0.0 and %s.timer.expired" % (recv, recv))
+        need = {recv + ".reconnectable", recv + ".timeout > 0.0", recv + ".timer.expired"}
         rs = V.call_nodes(restarts)
-        ok = bool(rt) and bool(tt) and all(V.dominated_by_edge([r], rt[0], "T") and V.dominated_by_edge([r], tt[0], "T") for r in ro)
+        ok = all(need <= V.facts(r) for r in ro)
         ok = ok and bool(rs) and all(V.cfg.always_reaches([r.id], [x.id for x in rs]) for r in ro)
         ctx.check(ok, "T1-reopen", f, "%s.%s: %s() only if reconnectable and timeout elapsed, then timer restarted" % (cn, meth, reopen),
                   "a client that is not reconnectable must never reopen on its own, and a reconnectable one must wait its "
